@@ -664,6 +664,9 @@ package parse
 //@   ensures ok: err == nil ==> r0 != nil && tcur(t) > old(tcur(t))
 
 //@ func parse.(*Tree).parseUntilEndTag
+// C20: nothing may stand between the end tag's name and its closing delimiter: a surplus literal there is the
+// offending token of the error
+//@   at "t.expect(tokenTagClose)" direct: tokAt(t, tcur(t) - 1).tokenType == tokenName
 //@   ensures closed: err == nil ==> tokAt(t, tcur(t) - 1).tokenType == tokenTagClose
 //@   requires tinv(t)
 //@   ensures wf: tinv(t) && tcur(t) >= old(tcur(t))
